@@ -12,6 +12,7 @@ import json
 import logging
 import os
 import shutil
+import sys
 import tempfile
 
 from harness import core, inject, world as W
@@ -697,6 +698,73 @@ def failing_stop_then_retry(rng, res):
         shutil.rmtree(root, ignore_errors=True)
 
 
+def legacy_key_history(rng, res, no):
+    """The deprecated key argument alone (`signing_key=<key dictionary>`, no Signer): start / stop, or the one-phase
+    command, with an rsa key. The files carry the id of THAT dictionary, the final link is signed with it, holds the
+    material as it was at start and the products as they are at stop; nothing preliminary is left. Oracle only."""
+    STOP_KW.clear()
+    KEY_FORM[0] = "signer"
+    import in_toto.runlib as rl
+    from in_toto.models.metadata import Metadata
+    rsa = [x for x in W.pool() if x.kind == "rsa"]
+    k = rsa[no % len(rsa)]
+    L = legacy_key(k)
+    kid = L["keyid"]
+    dsse = bool((no // 2) % 2)
+    one_phase = no % 3 == 2
+    root = tempfile.mkdtemp(prefix="verif-c12l-")
+    cwd = os.getcwd()
+    problems = []
+    try:
+        os.chdir(root)
+        open("m0", "wb").write(b"material\n")
+        try:
+            with quiet():
+                if one_phase:
+                    md = rl.in_toto_run("st", ["m0"], ["p0"], [sys.executable, "-c", "open('p0','w').write('product\\n')"],
+                                        signing_key=L, use_dsse=dsse)
+                else:
+                    rl.in_toto_record_start("st", ["m0"], signing_key=L, use_dsse=dsse)
+                    if not os.path.exists(".st.%s.link-unfinished" % kid[:8]):
+                        problems.append("no preliminary link under the key dictionary's id after start: %r" % sorted(os.listdir(".")))
+                    open("p0", "wb").write(b"product\n")
+                    open("m0", "wb").write(b"material changed after start\n")
+                    rl.in_toto_record_stop("st", ["p0"], signing_key=L)
+            final = "st.%s.link" % kid[:8]
+            left = sorted(f for f in os.listdir(".") if f not in ("m0", "p0", final))
+            if left:
+                problems.append("left behind: %r" % left)
+            if not os.path.exists(final):
+                problems.append("no final link %s: %r" % (final, sorted(os.listdir("."))))
+            else:
+                md = Metadata.load(final)
+                pub = {x: v for x, v in L.items()}
+                pub = dict(pub, keyval={"public": L["keyval"]["public"]})
+                try:
+                    md.verify_signature(pub)
+                except Exception as e:  # pylint: disable=broad-except
+                    problems.append("final link does not verify with the key it was recorded with: %s" % type(e).__name__)
+                pl = md.get_payload()
+                if pl.name != "st":
+                    problems.append("name %r" % pl.name)
+                if sorted(pl.materials.items()) != [("m0", {"sha256": sha_of("material\n")})]:
+                    problems.append("materials are not those present at start: %r" % sorted(pl.materials.items()))
+                if sorted(pl.products.items()) != [("p0", {"sha256": sha_of("product\n")})]:
+                    problems.append("products are not those present at stop: %r" % sorted(pl.products.items()))
+                if ("payload" in json.load(open(final))) != dsse:
+                    problems.append("format of the final link is not the one asked for at start")
+        except Exception as e:  # pylint: disable=broad-except
+            problems.append("raised %s: %s" % (type(e).__name__, str(e)[:120]))
+    finally:
+        os.chdir(cwd)
+        shutil.rmtree(root, ignore_errors=True)
+    case = {"op": "legacy_key_history", "no": no, "dsse": dsse, "one_phase": one_phase, "key": "rsa key dictionary"}
+    res.case(dict(case, problems=problems), True, not problems, sample_cap=1)
+    res.count("legacy_key_history")
+    if problems:
+        res.fail("oracle", case, {"why": "recording with the deprecated key dictionary alone: " + "; ".join(problems)})
+
+
 def interleaved(rng, res):
     KEY_FORM[0] = "signer"
     """start / stop / run for two step names and two keys in one directory."""
@@ -872,6 +940,7 @@ def shard(seed, idx, n, tier):
         other_steps_prelim(rng, res)
     for j_ in range(n):
         stop_products_tree(rng, res, no=idx * n + j_)
+    legacy_key_history(rng, res, idx)
     for _ in range(max(1, n)):
         copied_prelim_case(rng, res)
     from harness import cliequiv
